@@ -381,7 +381,9 @@ EqProto(x, y) == /\ x.irv = y.irv /\ x.mpay = y.mpay /\ Len(x.gs) = Len(y.gs)
 \* =======================================================================================
 \* The two properties
 \* =======================================================================================
-C02(E) == Valid(E) => LET d == Deser(E) IN d.err = "" /\ EqProto(Ser(d.s), Norm(E))
+\* (the deserialization d of E is a parameter so that one evaluation serves both formulas)
+C02With(E, d) == Valid(E) => (d.err = "" /\ EqProto(Ser(d.s), Norm(E)))
+C02(E) == C02With(E, Deser(E))
 
 SdCountOK(s) ==       \* IRGraph!CountOK over the graphs that exist
   \A g \in 1..Len(s.gIn) : \A v \in 1..Len(s.vProd) :
@@ -391,7 +393,7 @@ Fixpoint(s) == LET e1 == Ser(s)
                    d2 == Deser(e1)
                IN d2.err = "" /\ Ser(d2.s) = e1
 
-C17(E) == LET d == Deser(E) IN
-          d.err = "" => /\ C01Inv(Obs(d.s)) /\ SdCountOK(d.s) /\ OwnerOK(d.s)
-                        /\ Fixpoint(d.s)
+C17With(d) == d.err = "" => /\ C01Inv(Obs(d.s)) /\ SdCountOK(d.s) /\ OwnerOK(d.s)
+                            /\ Fixpoint(d.s)
+C17(E) == C17With(Deser(E))
 =============================================================================
